@@ -15,6 +15,11 @@ protocol version / credential class, anchored on golden artefacts).
        enumerated by DatGen) x the way a repeated slot names its key (the same path again / another file with the same key) x each used index,
        on every credential class: the credential must carry one table entry per SLOT (DatTerms.RotHashTerm), name the configured slot, and its
        RoT hash must be the hashlib reference over the per-slot fixed-width key material = what the image tools compute for the same list
+ announcements (DatTerms "what a challenge ANNOUNCES", enumerated by DatGen): the device's challenge carries its own protocol version, UUID and
+       RoT hash field; every announced version x announcing device x content of the RoT hash field x entry point of the host is crossed with the
+       credential cases.  The host is the flow of `nxpdebugmbox dat auth` (parse, validate_against_dc, build); what it refuses builds nothing;
+       an answer it builds (EdgeLock-enclave classes tolerate every version mismatch) must be the answer of the CREDENTIAL's protocol - length of
+       its layout, credential, beacon, and the verdicts of the acceptance automaton from every device for every challenge
  lane "cred" (c15_cred.py, DatCredGen): histories of ONE credential object - sign, export, set a signed field, sign again, export again,
        parse - on every credential class; every exported credential must verify under the RoT key over exactly the bytes in front of the
        signature and carry / parse back to the CURRENT field values (object model in DatTerms, decided step by step in DatTrace)
@@ -165,6 +170,15 @@ class Host:
         self.dar_obj = dar
         return dar.export()
 
+    def answer(self, via, dc_obj, dc_bytes, dac, beacon, dck_name):
+        """The response to a challenge through one of the two entry points (nothing is kept on the host)."""
+        from spsdk.dat.dar_packet import DebugAuthenticateResponse
+
+        if via == "config":     # `nxpdebugmbox dat auth`: a new configuration, the credential read from its file
+            return DebugAuthenticateResponse.load_from_config(self.resp_cfg(dc_bytes, beacon, dck_name), dac).export()
+        return DebugAuthenticateResponse.create(family=self.fam["family"], version=None, dc=dc_obj, auth_beacon=beacon, dac=dac,
+                                                dck=kp(dck_name, self.ks, "pem")).export()
+
     def hist_begin(self):
         self.h_cfg, self.h_dar = None, None
 
@@ -295,12 +309,22 @@ class RefHost:
 
     def parse_dac(self, data):
         hl = len(data) - 72
-        return RefHost.DAC(self.ver, data[8:24], data[40 + hl:72 + hl])
+        announced = struct.unpack_from("<2H", data)
+        return RefHost.DAC(announced[::-1] if self.fam["swapped"] else announced, data[8:24], data[40 + hl:72 + hl])
+
+    def binds(self, dac):
+        """Does the response embed and sign the UUID?  The reference host follows its CREDENTIAL; the variant "follow-dac" is the defect class
+        of the announcement dimension: the form of the response is taken from the version the challenge announces."""
+        return (dac.version.major if self.sc.get("refhost") == "follow-dac" else self.ver[0]) == 2
 
     def respond(self, dc_obj, dc_bytes, dac, beacon, dck_name, how):
         pub = D.load_pub(kp(dck_name, self.ks, "pub"))
-        self.dar_obj = RefHost.DAR(self.fam["family"], dc_obj, beacon, dac, (D.load_priv(kp(dck_name, self.ks, "pem")), self.ver[0] == 2, D.scheme_for(pub, self.ele)))
+        self.dar_obj = RefHost.DAR(self.fam["family"], dc_obj, beacon, dac, (D.load_priv(kp(dck_name, self.ks, "pem")), self.binds(dac), D.scheme_for(pub, self.ele)))
         return self.dar_obj.export()
+
+    def answer(self, via, dc_obj, dc_bytes, dac, beacon, dck_name):
+        pub = D.load_pub(kp(dck_name, self.ks, "pub"))
+        return RefHost.DAR(self.fam["family"], dc_obj, beacon, dac, (D.load_priv(kp(dck_name, self.ks, "pem")), self.binds(dac), D.scheme_for(pub, self.ele))).export()
 
     def tools_hash(self, paths):
         return hashlib_ref(list(self.ver), [D.load_pub(p_) for p_ in paths], self.ele)
@@ -314,7 +338,7 @@ class RefHost:
     def hist_step(self, mode, dc_obj, dc_bytes, dac, beacon, dck_name):
         if mode != "again":
             pub = D.load_pub(kp(dck_name, self.ks, "pub"))
-            self.h_dar = RefHost.DAR(self.fam["family"], dc_obj, beacon, dac, (D.load_priv(kp(dck_name, self.ks, "pem")), self.ver[0] == 2, D.scheme_for(pub, self.ele)))
+            self.h_dar = RefHost.DAR(self.fam["family"], dc_obj, beacon, dac, (D.load_priv(kp(dck_name, self.ks, "pem")), self.binds(dac), D.scheme_for(pub, self.ele)))
         return self.h_dar.export()
 
 
@@ -513,6 +537,7 @@ def _run_scenario_ele2(sc):
                            default=r.getrandbits(32), vu=r.getrandbits(32))
 
     raw = dac_bytes("ch1")
+    can_announce = True
     try:
         dac = host.parse_dac(raw)
         try:
@@ -527,6 +552,7 @@ def _run_scenario_ele2(sc):
         host.ver = (2, 0)
         dac = host.make_dac(raw, 32)
         host.parse_dac = lambda data: host.make_dac(data, 32)
+        can_announce = False
     dacs = {"ch1": dac}
     try:
         dar = DebugAuthenticateResponse.load_from_config(host.resp_cfg(dcb, beacon, dck), dac).export()
@@ -571,6 +597,14 @@ def _run_scenario_ele2(sc):
     for h in sc.get("histories", []):
         ev.append(run_history(host, h, dc_obj if p is None else p, dcb, dck, dac_for, beacons, observe,
                               lambda data: [{"d": "d1", "ch": ch, "v": dev.verdict(data, chs[ch])[0]} for ch in sorted(chs)]))
+    # ---- what the challenge announces: every version, a RoT hash field that does not hold the fused value (one device in this world)
+    ra = rng(PROP, "announce", sc["id"])
+    for a in sc.get("announces", []) if can_announce else []:
+        rk = fuses[:32] if a["rkth"] == "fused" else bytes(b ^ 0xFF for b in fuses[:32])
+        raw_a = D.build_dac(a["ver"][::-1] if fam["swapped"] else a["ver"], fam["socc"], u1, rk, ch1, revocation=ra.getrandbits(4), pinned=ra.getrandbits(32),
+                            default=ra.getrandbits(32), vu=ra.getrandbits(32))
+        ev.append(run_announce(host, sc, a, raw_a, 32, ch1, u1, dc_obj, lambda dac_: DebugAuthenticateResponse.load_from_config(host.resp_cfg(dcb, beacon, dck), dac_).export(),
+                               observe, lambda data: [{"d": "d1", "ch": ch, "v": dev.verdict(data, chs[ch])[0]} for ch in sorted(chs)]))
     for part, tbl, base in (("dar", [f for f in m["fields"] if f[0] not in ("dc", "pad")], 0), ("dc", c["fields"], m["cert_at"])):
         for name, off, ln in tbl:
             for bit in tamper_bits(r, ln, sc.get("flips", 1)):
@@ -700,6 +734,7 @@ def _run_scenario(sc):
         return dacs[(d, ch)]
 
     raw = dac_bytes("d1", "ch1")
+    can_announce = True
     try:
         dac = host.parse_dac(raw)
         try:
@@ -717,6 +752,7 @@ def _run_scenario(sc):
             ev.append({"e": "Dac", "ok": False, "len": len(raw), "hl": hl, "exc": exc_name(e), "msg": str(e)[:200]})
         host.parse_dac = lambda data: host.make_dac(data, hl)
         dac = dac_obj("d1", "ch1")
+        can_announce = False    # the host cannot read this device's challenges (reported): there is nothing to announce to it
 
     # ---- Respond (SPSDK) and walk the response
     try:
@@ -821,6 +857,20 @@ def _run_scenario(sc):
         ev.append(run_history(host, h, held, dcA, dck, dac_obj, beacons, observe,
                               lambda data: [{"d": d, "ch": ch, "v": deliver(data, d, ch)} for d in sorted(uu) for ch in sorted(chs)]))
 
+    # ---- what the challenge announces: each protocol version, the other device, a RoT hash field that does not hold the fused value; the
+    #      challenge has the layout of the ANNOUNCED version; the host is the flow of `nxpdebugmbox dat auth` (parse, validate, build)
+    ra = rng(PROP, "announce", sc["id"])
+    for a in sc.get("announces", []) if can_announce else []:
+        av = a["ver"]
+        hl_a = 32 if (ele or fam["sha256"] or av[0] == 1) else {0: 32, 1: 48, 2: 64}[av[1]]
+        rk = (fuses + bytes(64))[:hl_a]
+        if a["rkth"] == "other":
+            rk = bytes(b ^ 0xFF for b in rk)
+        raw_a = D.build_dac(av[::-1] if fam["swapped"] else av, fam["socc"], uu[a["d"]], rk, chs["ch1"], revocation=ra.getrandbits(4), pinned=ra.getrandbits(32),
+                            default=ra.getrandbits(32), vu=ra.getrandbits(32))
+        ev.append(run_announce(host, sc, a, raw_a, hl_a, chs["ch1"], uu[a["d"]], held, lambda dac_: host.answer(a["via"], held, dcA, dac_, beacons["b1"], dck), observe,
+                               lambda data: [{"d": d, "ch": ch, "v": deliver(data, d, ch)} for d in sorted(uu) for ch in sorted(chs)]))
+
     # ---- tamper: one flipped bit per field of the honest response
     for part, tbl, base in (("dc", dc["fields"], 0), ("dar", [f for f in w["fields"] if f[0] != "dc"], 0)):
         for name, off, ln in tbl:
@@ -844,6 +894,34 @@ def run_history(host, h, dc_obj, dc_bytes, dck_name, dac_for, beacons, observe, 
             continue
         obs.append(dict(observe(data), ok=True, v=verdicts(data), exc="", msg=""))
     return {"e": "History", "h": h, "obs": obs}
+
+
+def run_announce(host, sc, a, raw, hl, chal, uuid, held, build, observe, verdicts):
+    """One announcement (DatTerms): the twin's challenge `raw` announces protocol version a['ver'] (and has its layout), comes from device
+    a['d'] and holds in its RoT hash field what a['rkth'] says.  The host is the flow of `nxpdebugmbox dat auth`: it parses the challenge,
+    validates it against the credential it holds and - unless it refused - builds the response through entry point a['via'].  Recorded: what
+    the host read, whether it refused, and for a response it built: its length, whether it embeds the credential and the beacon, and what
+    the devices of the twin say to it for each challenge."""
+    ev = {"e": "Announce", "a": a, "hl": hl, "len": len(raw), "parsed": False, "validate": "-", "built": False}
+    try:
+        dac = host.parse_dac(raw)
+    except Exception as e:  # noqa: BLE001 - the host cannot read it: nothing is built
+        ev.update(exc=exc_name(e), msg=str(e)[:120])
+        return ev
+    ev.update(parsed=True, chalOk=dac.challenge == chal, uuidOk=dac.uuid == uuid, verOk=[dac.version.major, dac.version.minor] == list(a["ver"]))
+    try:
+        dac.validate_against_dc(sc["fam"]["family"], held)
+        ev["validate"] = "ok"
+    except Exception as e:  # noqa: BLE001 - the host refuses to answer this challenge with this credential: nothing is built
+        ev.update(validate="refused:" + exc_name(e), msg=str(e)[:120].replace("\n", " "))
+        return ev
+    try:
+        data = build(dac)
+    except Exception as e:  # noqa: BLE001 - nothing was built
+        ev.update(exc=exc_name(e), msg=str(e)[:120])
+        return ev
+    ev.update(built=True, darLen=len(data), obs=dict(observe(data), v=verdicts(data)))
+    return ev
 
 
 def tamper_bits(r, nbytes, flips):
@@ -903,7 +981,66 @@ def core_histories(cls, noobj):
             [step("obj", "d2", "ch1", "b1"), step("fresh", "d1", "ch2", "b1"), step("obj", "d1", "ch1", "b2")]]
 
 
-def plan(cases, attempts, fams, tier, r, histories=()):
+VERSIONS = ([1, 0], [1, 1], [2, 0], [2, 1], [2, 2])
+
+
+def core_announces(case, noobj):
+    """The announcements around the honest one (DatTerms; a = [ver, d, rkth, via]), per entry point of the host: EVERY protocol version announced
+    by the credential's own device with the fused RoT hash (so that every pair (credential version, announced version) is met), the other
+    device announcing the credential's version and a version of the other kind (RSA <-> ECC), a RoT hash field that holds something else.
+    noobj: no response constructor taking a credential object (signed-message variant; not the latest revision of an enclave family)."""
+    own = list(case["ver"])
+    other_kind = [1, 0] if own[0] == 2 else [2, 0]
+    res = []
+    for via in (("config",) if (noobj or case["cls"] == "ele2") else ("config", "create")):
+        res += [{"ver": list(v), "d": "d1", "rkth": "fused", "via": via} for v in VERSIONS]
+        if case["cls"] != "ele2":       # (the signed-message variant has one device in its world)
+            res += [{"ver": own, "d": "d2", "rkth": "fused", "via": via}, {"ver": other_kind, "d": "d2", "rkth": "fused", "via": via}]
+        res += [{"ver": own, "d": "d1", "rkth": "other", "via": via}, {"ver": other_kind, "d": "d1", "rkth": "other", "via": via}]
+    return res
+
+
+def ann_class(sc):
+    """The class the announcement dimension is planned and counted by: the family class of an EdgeLock-enclave family (container version 1,
+    container version 1 on a family whose latest revision has version 2, container version 2), 'classic' for all others."""
+    return sc["fam"]["fclass"] if sc["fam"]["ele"] else "classic"
+
+
+def plan_announces(scs, announces, tier):
+    """Which scenarios announce what (a fixed function of the plan - nothing is drawn).  Scenarios = the plain cases (the shape of a key does not
+    meet the challenge anywhere).
+      quick    : the core announcements; on every scenario of the EdgeLock-enclave class of container version 1 with an ECC credential (that is
+                 where the form of the response hangs on the protocol version and the host tolerates a version mismatch; a response costs 4 ms), and
+                 on the first two scenarios of every other (class, version, wildcard) cell - class = ann_class: 'classic' or the family class of an enclave family
+                 (signed messages of container version 2 and RSA-2048: 0.05 s per response; RSA-4096, 0.3 s per response: the first one)
+      thorough : the whole space TLC enumerates on every scenario with an ECC credential; RSA: the core announcements on the first 8 (RSA-4096: 4)
+                 scenarios of every (class, version, wildcard) cell"""
+    seen = {}
+    for sc in scs:
+        case = sc["case"]
+        sc["announces"] = []
+        if case.get("lz", "none") != "none":
+            continue
+        noobj = case["cls"] == "ele2" or sc["fam"]["fclass"].endswith("-oldrev")
+        core = core_announces(case, noobj)
+        missing = [a for a in core if a not in announces]
+        if missing:
+            raise Machinery(f"core announcement {missing[0]} is not in the space TLC enumerated")
+        cell = (ann_class(sc), tuple(case["ver"]), case["wild"])
+        seen[cell] = seen.get(cell, 0) + 1
+        ecc = case["ver"][0] == 2
+        if tier == "quick":
+            take = (ecc and case["cls"] == "ele1") or seen[cell] <= (1 if tuple(case["ver"]) == (1, 1) else 2)
+            full = False
+        else:
+            take = ecc or seen[cell] <= (4 if tuple(case["ver"]) == (1, 1) else 8)
+            full = ecc
+        if take:
+            space = [a for a in announces if (a["via"] == "config" or not noobj) and (a["d"] == "d1" or case["cls"] != "ele2")]
+            sc["announces"] = core + [a for a in space if a not in core] if full else core
+
+
+def plan(cases, attempts, fams, tier, r, histories=(), announces=()):
     """Scenarios: every abstract case on several families; every family at least once; attempts and histories dealt round-robin."""
     per_case = 2 if tier == "quick" else 10
     per_shape = 1 if tier == "quick" else 3      # cases that differ from a plain case only in the shape of one key
@@ -942,6 +1079,14 @@ def plan(cases, attempts, fams, tier, r, histories=()):
         plain = [c for c in cases if c.get("lz", "none") == "none"]
         pool = [c for c in plain if c["cls"] == cls and tools_apply(f, cls, c["ver"])] or [c for c in plain if c["cls"] == cls]
         add(r.choice(pool), f)
+    # every family class of the EdgeLock-enclave kind meets every key type on a plain case (the announcement dimension is asserted per family
+    # class; the revisions of a family that are not its latest are otherwise met by chance only)
+    for fc in sorted({f["fclass"] for f in fams if f["ele"]}):
+        fpool = [f for f in fams if f["fclass"] == fc]
+        cls = "ele%d" % fpool[0]["cnt"]
+        for ver in sorted({tuple(c["ver"]) for c in cases if c["cls"] == cls}):
+            if not any(s_["fam"]["fclass"] == fc and tuple(s_["case"]["ver"]) == ver and s_["case"].get("lz", "none") == "none" for s_ in scs):
+                add(r.choice([c for c in cases if c["cls"] == cls and tuple(c["ver"]) == ver and c.get("lz", "none") == "none"]), r.choice(fpool))
     cycles = {b: r.sample([a for a in attempts if a["binds"] == b], k=len([a for a in attempts if a["binds"] == b])) for b in (True, False)}
     # histories: all of them for the classic response classes; without the response constructor where it cannot be used (signed-message
     # variant; a family revision that is not the latest of an enclave family); the signed-message variant has one device in its world
@@ -991,6 +1136,7 @@ def plan(cases, attempts, fams, tier, r, histories=()):
             sc["via"] = "yaml-family"
         if sc["fam"]["fclass"].endswith("-oldrev"):
             sc["dar_via"] = "config"  # DebugAuthenticateResponse.create() takes no revision and resolves the family to its latest one
+    plan_announces(scs, list(announces), tier)
     return scs
 
 
@@ -1136,6 +1282,9 @@ def finding_key(t, matched):
         detail = f"subst={'+'.join(sub) or 'none'}/{ev['verdict']}"
     elif e == "History":
         detail = history_detail(ev, sc["case"]["wild"], sc["case"]["ver"][0] == 2 and sc["case"]["cls"] != "ele2")
+    elif e == "Announce":
+        detail = announce_detail(ev, sc["case"], sc["case"]["ver"][0] == 2 and sc["case"]["cls"] != "ele2",
+                                 next((x["len"] for x in t["ev"] if x.get("e") == "Respond" and x.get("ok")), None))
     elif e == "Tamper":
         detail = f"{ev['part']}.{ev['field']}/{ev['verdict']}"
     elif e == "Deliver":
@@ -1165,6 +1314,34 @@ def history_detail(ev, wild, binds=False):
         if what:
             return f"step{k + 1}={s_['m']}/" + "+".join(what)
     return "modes=" + "-".join(s_["m"] for s_ in ev["h"])
+
+
+def announce_detail(ev, case, binds, honest_len=None):
+    """What is wrong with the answer to an announcement (for the finding key only: the verdict was TLC's).  honest_len: the length of the
+    response of the same scenario to the challenge that announces the credential's own version."""
+    a = ev["a"]
+    head = f"announced={a['ver'][0]}.{a['ver'][1]}/via={a['via']}" + ("/other-device" if a["d"] != "d1" else "") + ("/rot-hash-field=other" if a["rkth"] != "fused" else "")
+    if not ev.get("built"):
+        return head + "/not-an-announcement-of-the-space"
+    o = ev["obs"]
+    acc = {(x["d"], x["ch"]) for x in o["v"] if x["v"] == "Accept"}
+    what = [k for k in ("chalOk", "uuidOk", "verOk") if not ev.get(k)]
+    if honest_len is not None and ev["darLen"] != honest_len:
+        what.append(f"length{ev['darLen'] - honest_len:+d}")
+    if o["bIs"] == "malformed":
+        what.append("malformed")
+    else:
+        if not o["dcEq"]:
+            what.append("credential")
+        if o["bIs"] != "b1":
+            what.append("beacon")
+    if any(ch != "ch1" for _, ch in acc):
+        what.append("accepted-for-other-challenge")
+    if binds and any(d != a["d"] for d, _ in acc):
+        what.append("accepted-by-other-device")
+    if (case["wild"] or a["d"] == "d1") and (a["d"], "ch1") not in acc:
+        what.append("own-challenge-not-accepted")
+    return head + "/" + ("+".join(what) or "length-or-verdicts")
 
 
 def slim(t):
@@ -1199,13 +1376,13 @@ def continuation(t, matched, rnd):
     name = t["ev"][matched]["e"]
     if name.startswith("Cred"):     # the other histories of the scenario are still decided
         return C.cut_history(t, matched, t["id"] % 100000 + 100000 * (rnd + 1))
-    if name not in SKIPPABLE and name not in ("Attempt", "Tamper", "History"):
+    if name not in SKIPPABLE and name not in ("Attempt", "Tamper", "History", "Announce"):
         return None
     ev = json.loads(json.dumps(t["ev"][:matched] + t["ev"][matched + 1:]))
     if name in SKIPPABLE:
         ev[0]["skip"] = ev[0]["skip"] + [name]
         if name == "CheckResponseSignature":  # without an accepted honest response the attempts say nothing
-            ev = [e for e in ev if e["e"] not in ("Attempt", "Tamper", "History")]
+            ev = [e for e in ev if e["e"] not in ("Attempt", "Tamper", "History", "Announce")]
     return dict(t, id=t["id"] % 100000 + 100000 * (rnd + 1), ev=ev)
 
 
@@ -1215,11 +1392,12 @@ def canary(credhists):
     line of the tree under test runs for them, so a defect of SPSDK cannot turn the canary into a machinery failure."""
     fam = C.CANARY_FAM["cb21"]
     case = {"kind": "case", "cls": "classic", "ver": [2, 0], "nkeys": 3, "used": 1, "wild": False}
-    good = run_scenario({"id": 999999, "case": case, "fam": fam, "attempts": core_attempts(True), "histories": core_histories("classic", False), "tools": True,
-                         "via": "yaml-family", "explicit_version": False, "dar_via": "create", "dc_for_dar": "created", "refhost": True})
+    gsc = {"id": 999999, "case": case, "fam": fam, "attempts": core_attempts(True), "histories": core_histories("classic", False), "tools": True,
+           "announces": core_announces(case, False), "via": "yaml-family", "explicit_version": False, "dar_via": "create", "dc_for_dar": "created", "refhost": True}
+    good = run_scenario(gsc)
     if good.get("harness_error"):
         raise Machinery("canary: " + good["harness_error"])
-    if good["ev"][-2]["e"] != "Tamper":
+    if good["ev"][-2]["e"] != "Tamper" or len([e for e in good["ev"] if e["e"] == "Announce" and e["built"]]) != len(gsc["announces"]):
         raise Machinery(f"canary: the reference host's trace is incomplete: {json.dumps(good['ev'][-3:])[:400]}")
     g = json.loads(json.dumps({"id": "good", "ev": good["ev"]}))
     more = []
@@ -1227,9 +1405,10 @@ def canary(credhists):
             ("classic", [1, 0], 2, 1, True, "cb1", "none", "-"), ("ele1", [2, 1], 4, 3, False, "ele1", "none", "-"), ("classic", [2, 1], 1, 0, True, "cb21-sha256", "none", "-"),
             ("classic", [2, 0], 3, 1, False, "cb21", "other", "x"), ("classic", [2, 1], 2, 0, True, "cb21", "used", "y"), ("ele1", [2, 0], 4, 2, False, "ele1", "dck", "x")]):
         f2 = C.CANARY_FAM[fclass]
-        t2 = run_scenario({"id": 999990 + k, "case": {"kind": "case", "cls": cls, "ver": ver, "nkeys": nk, "used": used, "wild": wild, "lz": lz, "coord": coord}, "fam": f2,
+        c2 = {"kind": "case", "cls": cls, "ver": ver, "nkeys": nk, "used": used, "wild": wild, "lz": lz, "coord": coord}
+        t2 = run_scenario({"id": 999990 + k, "case": c2, "fam": f2,
                            "attempts": core_attempts(ver[0] == 2), "histories": core_histories(cls, False), "tools": True, "via": "yaml-family",
-                           "explicit_version": False, "dar_via": "create", "dc_for_dar": "created", "refhost": True})
+                           "announces": core_announces(c2, False), "explicit_version": False, "dar_via": "create", "dc_for_dar": "created", "refhost": True})
         if t2.get("harness_error") or t2["ev"][-2]["e"] != "Tamper":
             raise Machinery(f"canary: reference host failed for {cls} {ver}: {t2.get('harness_error') or json.dumps(t2['ev'][-3:])[:400]}")
         more.append({"id": f"good-{cls}-{ver[0]}.{ver[1]}-{lz}{coord}", "ev": t2["ev"]})
@@ -1272,15 +1451,44 @@ def canary(credhists):
     mutate("bad-shape", lambda m, evs: m["Case"]["shapes"]["rot"].__setitem__(0, "x"))  # a key of another shape than the case says
     mutate("bad-tools2", lambda m, evs: m["CheckRotHash"].update(tools2="11" + m["CheckRotHash"]["tools2"][2:] if not m["CheckRotHash"]["tools2"].startswith("11")
                                                                  else "00" + m["CheckRotHash"]["tools2"][2:]))
+    # ---- the announcement dimension: single-field corruptions of an answer to a challenge announcing the OTHER kind of protocol version ...
+    aat = {}
+
+    def ann(evs, built=True):
+        return next(e for e in evs if e["e"] == "Announce" and e["built"] == built and e["a"]["ver"][0] != case["ver"][0])
+
+    def mutate_ann(name, fn):
+        mutate(name, lambda m, evs: fn(ann(evs)))
+        aat[name] = "Announce"
+
+    mutate_ann("bad-announce-other-challenge", lambda e: next(x for x in e["obs"]["v"] if x["d"] == "d1" and x["ch"] == "ch2").update(v="Accept"))
+    mutate_ann("bad-announce-other-device", lambda e: next(x for x in e["obs"]["v"] if x["d"] == "d2" and x["ch"] == "ch1").update(v="Accept"))
+    mutate_ann("bad-announce-own-not-accepted", lambda e: next(x for x in e["obs"]["v"] if x["d"] == "d1" and x["ch"] == "ch1").update(v="Malformed"))
+    mutate_ann("bad-announce-length", lambda e: e.update(darLen=e["darLen"] - 16))        # the length of the RSA form of this response
+    mutate_ann("bad-announce-credential", lambda e: e["obs"].update(dcEq=False))
+    mutate_ann("bad-announce-misread", lambda e: e.update(chalOk=False))
+    mutate_ann("bad-announce-dac-layout", lambda e: e.update(hl=48, len=e["len"] + 16))    # not the challenge layout of the announced version
+    mutate_ann("bad-announce-version", lambda e: e["a"].update(ver=[3, 0]))                # not a protocol version of the space
+    # ... and the traces of a reference host that takes the FORM of its response from the announced version (the defect class of the dimension):
+    # ECC credential / RSA credential / EdgeLock-enclave credential
+    for k, (cls, ver, nk, used, wild, fclass) in enumerate([("classic", [2, 0], 3, 1, False, "cb21"), ("classic", [1, 0], 2, 1, True, "cb1"), ("ele1", [2, 1], 4, 3, True, "ele1")]):
+        c3 = {"kind": "case", "cls": cls, "ver": ver, "nkeys": nk, "used": used, "wild": wild, "lz": "none", "coord": "-"}
+        t3 = run_scenario(dict(gsc, id=999970 + k, case=c3, fam=C.CANARY_FAM[fclass], attempts=core_attempts(ver[0] == 2), histories=core_histories(cls, False),
+                               announces=core_announces(c3, False), refhost="follow-dac"))
+        if t3.get("harness_error") or t3["ev"][-2]["e"] != "Tamper":
+            raise Machinery(f"canary: the reference host that follows the announced version failed for {cls} {ver}: {t3.get('harness_error') or json.dumps(t3['ev'][-3:])[:400]}")
+        name = f"bad-announce-follow-dac-{cls}-{ver[0]}.{ver[1]}"
+        bad.append({"id": name, "ev": t3["ev"]})
+        aat[name] = "Announce"
     cgood, cbad, cat = C.canary_traces(credhists)
     sgood, sbad, sat = canary_slots()
     rej, _ = tlc.tv("C15", "DatTrace", [g] + more + cgood + sgood + bad + cbad + sbad)
     want = {b["id"] for b in bad + cbad + sbad}
     if set(rej) != want:
         raise Machinery(f"canary failed: rejected {sorted(rej)}, expected exactly {sorted(want)}")
-    wrong = {k: rej[k][2] for k, name in list(cat.items()) + list(sat.items()) if rej[k][2] != name}
+    wrong = {k: rej[k][2] for k, name in list(cat.items()) + list(sat.items()) + list(aat.items()) if rej[k][2] != name}
     if wrong:
-        raise Machinery(f"canary failed: credential-object / slot-list traces rejected at another step than the corrupted one: {wrong}")
+        raise Machinery(f"canary failed: credential-object / slot-list / announcement traces rejected at another step than the corrupted one: {wrong}")
     return (f"{1 + len(more)} traces of the reference host, {len(cgood)} traces of the reference credential object and {len(sgood)} traces of the reference host "
             f"with RoT slots sharing a key accepted, {len(bad) + len(cbad) + len(sbad)} corruptions rejected ({', '.join(sorted(want))})")
 
@@ -1359,14 +1567,15 @@ def run(tier):
     cases = [x for x in items if x["kind"] == "case" and x["given"] == "-"]
     attempts = [{k: x for k, x in a.items() if k != "kind"} for a in items if a["kind"] == "attempt"]
     histories = [[{k: s_[k] for k in ("m", "d", "ch", "b")} for s_ in x["h"]] for x in items if x["kind"] == "history"]
+    announces = [{k: a[k] for k in ("ver", "d", "rkth", "via")} for a in items if a["kind"] == "announce"]
     n_plain = len([c for c in cases if c["lz"] == "none"])
     n_parts = {n: len({tuple(c["pat"]) for c in slotcases if c["nkeys"] == n}) for n in (2, 3, 4)}
     if (n_plain != 164 or len(cases) != 588 or len(slotcases) != 3192 or n_parts != {2: 1, 3: 4, 4: 14} or len(attempts) != 2304 or len(histories) != 2040
-            or gen.distinct != len(items)):
+            or len(announces) != 40 or {tuple(a["ver"]) for a in announces} != {tuple(x) for x in VERSIONS} or gen.distinct != len(items)):
         raise Machinery(f"GEN emitted {len(cases)} cases ({n_plain} plain) / {len(slotcases)} cases with slots sharing a key ({n_parts}) / {len(attempts)} attempts / "
-                        f"{len(histories)} histories / {gen.distinct} states")
+                        f"{len(histories)} histories / {len(announces)} announcements / {gen.distinct} states")
     say(f"[C15] GEN done {v.timer.s()}s: {len(cases)} cases ({len(cases) - n_plain} with a leading-zero key), {len(slotcases)} cases with RoT slots sharing a key, "
-        f"{len(attempts)} delivery attempts, {len(histories)} histories, {len(credhists)} histories of one credential object")
+        f"{len(attempts)} delivery attempts, {len(histories)} histories, {len(announces)} announcements, {len(credhists)} histories of one credential object")
     for ks_ in ("ecc256", "ecc384"):   # the key pool has the shapes the case space names
         for nm, want in (("lzx", "x"), ("lzy", "y"), ("srk0", "-"), ("srk1", "-"), ("srk2", "-"), ("srk3", "-"), ("dck", "-")):
             if shape(D.load_pub(kp(nm, ks_, "pub"))) != want:
@@ -1396,7 +1605,7 @@ def run(tier):
     fams = dat_families()
     if len({f["family"] for f in fams}) < 60:
         raise Machinery(f"only {len(fams)} DAT families found in the database")
-    scs = plan(cases, attempts, fams, tier, r, histories)
+    scs = plan(cases, attempts, fams, tier, r, histories, announces)
     cscs = C.plan(cases, fams, tier, rng(PROP, "cred-plan"), credhists, len(scs))
     sscs = plan_slots(slotcases, fams, tier, rng(PROP, "slots-plan"), len(scs) + len(cscs))
     say(f"[C15] {len(scs)} scenarios over {len({(s['fam']['family'], s['fam']['revision']) for s in scs})} family revisions; credential-object lane: "
@@ -1427,11 +1636,23 @@ def run(tier):
 
     # ---- accounting
     refused, n_att, n_tamper, n_hist, hsteps, hrefused = {}, 0, 0, 0, {}, {}
+    n_ann, ann_built, ann_refused = 0, {}, {}
     for t in traces:
         sc = t["sc"]
         v.count(1)
         cell = (sc["case"]["cls"], tuple(sc["case"]["ver"]))
         for e in t["ev"]:
+            if e["e"] == "Announce":
+                n_ann += 1
+                a = e["a"]
+                if e["built"]:
+                    v.nontrivial(("announce", sc["case"]["cls"], tuple(sc["case"]["ver"]), sc["case"]["wild"], json.dumps(a, sort_keys=True)))
+                    k = (ann_class(sc), tuple(sc["case"]["ver"]), tuple(a["ver"]), a["via"])
+                    ann_built[k] = ann_built.get(k, 0) + 1
+                else:
+                    why = e["validate"] if e["parsed"] and e["validate"] != "ok" else "raise:" + e.get("exc", "?")
+                    k = f"{ann_class(sc)}/{'same' if list(a['ver']) == sc['case']['ver'] else 'other'}-version/{why}"
+                    ann_refused[k] = ann_refused.get(k, 0) + 1
             if e["e"] in ("Create", "Respond") and not e["ok"]:
                 refused.setdefault(cell, []).append(f"{sc['fam']['family']}:{e['e']}:{e['exc']}")
             if e["e"] == "Attempt":
@@ -1449,7 +1670,17 @@ def run(tier):
                         hrefused.setdefault(f"{sc['case']['cls']}/{s_['m']}/{o['exc']}", []).append(sc["fam"]["family"])
         if any(e["e"] == "CheckResponseSignature" for e in t["ev"]):
             v.nontrivial(("case", sc["fam"]["fclass"], json.dumps(sc["case"], sort_keys=True)))
-    v.count(n_att + n_tamper + sum(hsteps.values()))
+    v.count(n_att + n_tamper + sum(hsteps.values()) + sum(ann_built.values()))
+    # non-vacuity of the announcement dimension: the host really answered - through each of its entry points - every announced version for every
+    # credential version on every family class of the EdgeLock-enclave kind (where a version mismatch is tolerated), and the credential's own
+    # version elsewhere
+    # (classic P-521 credentials: validate_against_dc itself fails on them - their RoT hash is not defined, DatLayout.RotHashDefined)
+    # (evaluated after the verdicts: a tree on which the host cannot read the device's challenges at all is reported, not called a machinery failure)
+    acls = [("classic", VERSIONS[:4], ("config", "create"))]
+    for fc in sorted({f["fclass"] for f in fams if f["ele"]}):
+        acls.append((fc, VERSIONS[2:] if fc.startswith("ele2") else VERSIONS, ("config",) if (fc.startswith("ele2") or fc.endswith("-oldrev")) else ("config", "create")))
+    agaps = [(cls_, dcv, av, via_) for cls_, vers_, vias_ in acls
+             for dcv in vers_ for av in (VERSIONS if cls_ != "classic" else (dcv,)) for via_ in vias_ if not ann_built.get((cls_, tuple(dcv), tuple(av), via_))]
     # non-vacuity of the history lane: every way of re-using an object was really executed for every response class
     for cls_, modes in (("classic", ("fresh", "cfg", "obj", "again")), ("ele1", ("fresh", "cfg", "obj", "again")), ("ele2", ("fresh", "cfg", "again"))):
         for m_ in modes:
@@ -1479,7 +1710,10 @@ def run(tier):
     v.extra.update(refused={f"{c[0]}/{c[1][0]}.{c[1][1]}": x[:5] for c, x in refused.items()}, attempts_executed=n_att, tamper_executed=n_tamper,
                    histories_executed=n_hist, history_steps_built={f"{k[0]}/{k[1]}": x for k, x in sorted(hsteps.items())},
                    history_steps_refused={k: len(x) for k, x in sorted(hrefused.items())},
-                   families=len({t["sc"]["fam"]["family"] for t in traces}), family_revisions=len({(t["sc"]["fam"]["family"], t["sc"]["fam"]["revision"]) for t in traces}))
+                   families=len({t["sc"]["fam"]["family"] for t in traces}), family_revisions=len({(t["sc"]["fam"]["family"], t["sc"]["fam"]["revision"]) for t in traces}),
+                   announcements_executed=n_ann, announcements_answered=sum(ann_built.values()),
+                   announcements_answered_with_other_version={c_: sum(x for k, x in ann_built.items() if k[0] == c_ and k[1] != k[2]) for c_ in sorted({k[0] for k in ann_built})},
+                   announcements_version_pairs_answered=len({k[:3] for k in ann_built}), announcements_refused=dict(sorted(ann_refused.items())))
 
     # ---- the credential-object lane: what was executed (non-vacuity: every class signed again after a change of every field class)
     cstats = C.account(v, ctraces)
@@ -1507,6 +1741,11 @@ def run(tier):
     hst = next((t for t in traces if t["sc"]["case"]["cls"] == "ele2" and any(e["e"] == "History" for e in t["ev"])), None)
     if hst:
         v.sample({"scenario": hst["sc"]["case"], "family": hst["sc"]["fam"]["family"], "histories": [e for e in hst["ev"] if e["e"] == "History"][:2]})
+    ant = next((t for t in traces if t["sc"]["case"]["cls"] == "ele1" and t["sc"]["case"]["ver"][0] == 2 and t["sc"]["case"]["wild"]
+                and any(e["e"] == "Announce" and e["built"] and e["a"]["ver"][0] == 1 and e["a"]["d"] == "d2" for e in t["ev"])), None)
+    if ant:
+        v.sample({"scenario": ant["sc"]["case"], "family": ant["sc"]["fam"]["family"], "challenge_announces_other_version":
+                  [e for e in ant["ev"] if e["e"] == "Announce" and e["built"] and e["a"]["ver"][0] == 1][:2] + [e for e in ant["ev"] if e["e"] == "Announce" and e["a"]["rkth"] == "other"][:1]})
     rsa = next((t for t in traces if t["sc"]["case"]["ver"][0] == 1 and t["sc"]["case"]["wild"] and t["ev"][-2]["e"] == "Tamper"), None)
     if rsa:
         v.sample({"rsa_wildcard_other_device": [e for e in rsa["ev"] if e["e"] == "Attempt" and e["a"]["d"] == "d2" and e["verdict"] == "Accept"][:2]})
@@ -1530,6 +1769,11 @@ def run(tier):
         rounds += 1
     v.extra["tv_rounds"] = rounds
     say(f"[C15] TV done {v.timer.s()}s")
+    reported = list(v.violations) + [x["first_key"] for x in v.seen_known.values()]
+    if agaps and not any("/Dac/" in k or k.endswith("/Dac") or "/Announce/" in k for k in reported):
+        cls_, dcv, av, via_ = agaps[0]
+        raise Machinery(f"announcements: no response was built through '{via_}' by a host holding a {cls_} credential of version {dcv} for a challenge announcing "
+                        f"version {av} ({len(agaps)} such gaps): refused = {json.dumps(ann_refused)[:700]}")
     # non-vacuity of the slot-list lane (after the verdicts: a tree that breaks the lane's clauses is reported, not called a machinery failure)
     if sgaps and not any("/slots=" in k for k in list(v.violations) + [x["first_key"] for x in v.seen_known.values()]):
         raise Machinery(f"slot-list lane: the root-of-trust hash was never evaluated (with the image tools where they define one) for {len(sgaps)} "
@@ -1544,6 +1788,13 @@ def run(tier):
         "the honest exchange, the core substitutions and a round-robin share of the 2304 delivery attempts TLC enumerates, core histories (configuration object / "
         "credential object / response object used again for other challenges, beacons, devices) and a round-robin share of the 2040 histories TLC enumerates "
         "(quick tier: on the plain cases; RSA: core histories only, on every second - RSA-4096: eighth - scenario; key-shape cases with device-specific credentials and the core attempts only), plus one bit flip per field of the response; "
+        "announcements: the 40 elements TLC enumerates (announced protocol version x announcing device x RoT hash field holding the fused value / something else x "
+        "entry point load_from_config / create) crossed with the credential cases - per scenario the core announcements (per entry point: EVERY announced version from "
+        "the credential's device, the other device announcing the credential's version and one of the other kind, another RoT hash field with the credential's version "
+        f"and one of the other kind){' on every plain scenario of the EdgeLock-enclave class of container version 1 with an ECC credential and on the first two (RSA-4096: the first) scenarios of every other (class, version, wildcard) cell' if tier == 'quick' else '; ECC credentials: all 40 on every plain scenario; RSA: the core ones on the first 8 (RSA-4096: 4) scenarios of every (class, version, wildcard) cell'}; "
+        f"the host is the flow of nxpdebugmbox dat auth (parse, validate_against_dc, build): {v.extra['announcements_executed']} announcements, {v.extra['announcements_answered']} answered "
+        f"({json.dumps(v.extra['announcements_answered_with_other_version'])} of them to a challenge announcing ANOTHER version than the credential's; every pair "
+        "(credential version, announced version) on every family class of the enclave kind through every entry point - checked), the rest refused by the host; "
         f"credential-object lane: per (class, protocol version) {2 if tier == 'quick' else 8} scenarios (one device-specific, one wildcard credential) on different families, each "
         "running on a NEW object per history the core histories (for EACH settable field class sign - export - set - sign again - export again - parse; unsigned export; "
         "set between two exports; the parsed object changed and signed; two fields; sign / export twice) and a round-robin share of the 5268 histories of up to six "
@@ -1557,7 +1808,7 @@ def run(tier):
         "distinct = (family class, case), (class, wildcard, attempt), (class, key type, wildcard, history), (credential class, history of one object) and "
         "(family class, slot-list case)"
     )
-    v.cov["checker_cmd"] = ("TLC DatGen (cases incl. slot patterns, attempts, histories of the host, lemmas) ; TLC DatCredGen (histories of one credential object, lemmas) ; "
+    v.cov["checker_cmd"] = ("TLC DatGen (cases incl. slot patterns, attempts, histories of the host, announcements, lemmas) ; TLC DatCredGen (histories of one credential object, lemmas) ; "
                             "TLC DatMC (protocol invariants) ; TLC DatTrace (decides every trace)")
     v.cov["trusted_base"] = ["TLC", "cryptography: RSA PKCS#1 v1.5 / PSS verify, ECDSA verify, PEM key loading - called directly", "hashlib (SHA-256/384/512)",
                              "harness/c15_dev.py walkers; layouts anchored on 5 golden credentials + 3 challenges of tests/dat/data (container v2: documentation tables only)"]
@@ -1591,6 +1842,16 @@ def run(tier):
         "without the response part (container version 2 excepted, where the SRK table travels in the response: every SRK record commits to its slot number, so "
         "the equality pattern of the table entries is asserted for the other classes only); a list SPSDK refuses creates nothing (coverage.slot_list.refused)",
         "a configuration SPSDK refuses creates nothing and is outside the property (counted in coverage.refused)",
+        "announcements: the device's challenge announces its own protocol version, UUID and RoT hash field, which need not be the credential's; the host is "
+        "the flow of `nxpdebugmbox dat auth` - DebugAuthenticationChallenge.parse, validate_against_dc(family, credential), then load_from_config / create - and "
+        "a challenge validate_against_dc refuses (version mismatch outside the EdgeLock-enclave families, another UUID than a device-specific credential's, a "
+        "RoT hash mismatch on most families, counted in coverage.announcements_refused) builds nothing: what load_from_config / create would do with a refused "
+        "challenge is NOT asserted. For an answer that is built the R-spec device reads the response along the CREDENTIAL it carries (its version field says "
+        "how long it is, of which type the debug key is and whether a UUID follows the beacon) - the device twin has always done so; a device that would parse "
+        "the response along the version it announced itself is not the model. A challenge announcing another SoC class is not enumerated (no host flow "
+        "tolerates it and a device of another class rejects the credential anyway); the RoT hash field is an announced value only - the device's fuses stay "
+        "the credential's root of trust; container version 2: the credential has no protocol version (SPSDK hands out a dummy 2.0), every announced version "
+        "is crossed with the three ECC key types",
         "RSA versions: the response is not bound to the device UUID by protocol definition (stated in DatTerms, not reported)",
     ]
     return v.finish()
